@@ -215,6 +215,20 @@ def run(ctx):
                 ctx.prove("C11.state", c.ident, loc_of(mu), f"self.{a} is saved by _checkpoint_extra_state and restored on resume", disc=f"self.{a}")
     ctx.floor("concrete SMC sampler classes", n_cls, 3)
 
+    # ---- mutable loop state in the payload is a snapshot, not an alias
+    extra = _extra_keys(repo, smc)
+    hv = extra.get("history")
+    oks = hv is not None and hv[0] == "f" and hv[1].endswith("deepcopy") and hv[2] and hv[2][0] == self_attr("history")
+    ces0 = smc.resolve("_checkpoint_extra_state")
+    ctx.decide(bool(oks), "C11.snapshot", ces0.ident, loc_of(ces0),
+               "the history stored in a checkpoint is a deep copy taken at checkpoint time",
+               f"the checkpoint payload holds {T.show(hv)[:80] if hv else 'no history'}: the live history object keeps growing after the checkpoint was taken, so a "
+               "checkpoint passed on as a dictionary (or kept by the default callback) no longer describes the iteration it was taken at")
+    rv = extra.get("rng_state")
+    okr = rv is not None and any(s_ == ("attr", ("attr", self_attr("rng"), "bit_generator"), "state") for s_ in T.subterms(rv))
+    ctx.decide(bool(okr), "C11.snapshot", ces0.ident, loc_of(ces0), "the generator state stored is read from the sampler's generator at checkpoint time",
+               f"rng_state in the payload is {T.show(rv)[:100] if rv else 'absent'}", disc="rng")
+
     # ---- no mutation of restored state before the loop
     muts = [e for e in sf_res.events(None, in_loop=False)
             if e.node.lineno < loop_node.lineno and e.callee in ("method:append", "method:extend", "method:insert", "method:pop", "method:clear", "method:remove")
@@ -379,6 +393,10 @@ MUTANTS = [
     M("bytes source unsupported", _SB, "elif isinstance(source, bytes):\n            state = pickle.loads(source)\n", "", "C11.src"),
     M("primed checkpoint not forwarded", _A, "kwargs[\"resume_from\"] = self._resume_from_default", "pass", "C11.prime"),
     M("restored iteration dropped", _B, "samples, beta, iterations = self.restore_from_checkpoint(\n                resume_from\n            )", "samples, beta, _ = self.restore_from_checkpoint(\n                resume_from\n            )\n            iterations = 0", "C11.state"),
+]
+MUTANTS += [
+    M("history aliased into the checkpoint", _B, "history_copy = copy.deepcopy(self.history)", "history_copy = self.history", "C11.snapshot"),
+    M("history shallow-copied into the checkpoint", _B, "history_copy = copy.deepcopy(self.history)", "history_copy = copy.copy(self.history)", "C11.snapshot"),
 ]
 NEUTRALS = [
     M("payload call with keywords", _B, "state = self.build_checkpoint_state(\n                samples, iterations, beta, min_step=min_step\n            )", "state = self.build_checkpoint_state(\n                samples=samples, iteration=iterations, beta=beta, min_step=min_step\n            )"),
